@@ -79,7 +79,7 @@ func c05Run(ctx *core.Ctx) {
 		long = append(long, longMsg{repeatByte('q', run), 64})
 	}
 	long = append(long, longMsg{repeatByte('L', 2500), 0})
-	nSeeded := 6
+	nSeeded := 24
 	if ctx.Thorough() {
 		nSeeded = 60
 	}
@@ -107,8 +107,8 @@ func c05Run(ctx *core.Ctx) {
 				for _, extra := range []bool{false, true} {
 					combo++
 					for si, seg := range segs {
-						if !ctx.Thorough() && len(parts) > 2 && (combo+si)%2 == 0 {
-							continue // quick: two of the four segmentations, alternating
+						if !ctx.Thorough() && len(parts) > 3 && (combo+si)%2 == 0 {
+							continue // quick: two of the four segmentations for four-part compositions, alternating
 						}
 						mk(msg, parts, extra, seg, modes[(combo+mi)%3], 0, combo%3 == 0)
 					}
